@@ -149,7 +149,7 @@ def generate(rng, index, tier):
                     g['id'], g['dbgid'] = rng.pick([(0, 0), (0, g['dbgid']), (g['id'], 0)])      # id 0 / debug id 0 are ids too
                 ops.append(_decorate(rng, g, (len(g['text'].encode()) + 47) // 32))
             else:
-                n = rng.pick([1, 31, 32, 33, 40, 63, 64])
+                n = rng.pick([1, 31, 32, 33, 40, 63, 64, 0])        # (0: a thread whose name was set to the empty string)
                 t = {'k': 'tname', 'text': rng.text(n), 'prev': rng.chance(0.25)}
                 ops.append(_decorate(rng, t, 2))
             if rng.chance(0.1) and ops and ops[-1]['k'] in ('sys', 'lookup', 'gstr', 'tname') and not ops[-1].get('noend'):
@@ -178,6 +178,20 @@ def generate(rng, index, tier):
         scn['tsmode'] = ['frozen', []]
     if rng.chance(0.1):
         scn['table'] = {'remap': {'VFS_LOOKUP': 0x03f00000 | (rng.randrange(1, 1 << 10) << 2)}}
+    elif rng.chance(0.08):
+        # the caller's table has a second id with the name VFS_LOOKUP (tables do repeat names), and some lookups are logged under it
+        alias = 0x03f10000 | (rng.randrange(1, 1 << 10) << 2)
+        scn['table'] = {'extra': {str(alias): 'VFS_LOOKUP'}}
+
+        def mark(ops_):
+            for op_ in ops_:
+                if op_.get('k') == 'lookup' and rng.chance(0.5):
+                    op_['eid'] = alias
+                for key in ('in', 'ops'):
+                    if key in op_:
+                        mark(op_[key])
+        for th_ in threads:
+            mark(th_['ops'])
     return scn
 
 
